@@ -607,7 +607,7 @@ def finish(chk, prop, tier, base_seed, jobs, records, harness_errors, det_checke
         'determinism_reexecutions': det_checked,
         'determinism_mismatches': len(set(det_failed)),
         'hash_seed_classes': min(jobs, HASH_CLASSES),
-        'known_findings_seen': {k: {'count': h['count'], 'example': h['example']} for k, h in known_hits.items()},
+        'known_findings_seen': {k: {'count': h['count'], 'example': h['example'], 'first_run_index': h['idx']} for k, h in known_hits.items()},
         'exhaustive': bool(getattr(chk, 'exhaustive', False)),
         'repo': repo_rev(),
         'harness_errors': harness_errors[:5],
